@@ -122,6 +122,24 @@ pub fn libcall_may_panic<R>(f: impl FnOnce() -> R) -> Result<Result<R, Panicked>
     }
 }
 
+/// payload of the panic injected by `drop_unwinding`
+pub struct InjectedUnwind;
+
+/// Fault injection "the owner dies": the value is dropped while its thread unwinds from a panic that the thread
+/// survives (as under `catch_unwind`, or in a panicking thread that is joined). A drop is a drop: every release
+/// protocol must come out the same.
+pub fn drop_unwinding<T>(v: T) -> Result<(), Violation> {
+    libcall("drop while unwinding from an injected panic", move || {
+        let r = catch_unwind(AssertUnwindSafe(move || {
+            let _held = v;
+            std::panic::panic_any(InjectedUnwind);
+        }));
+        drop(r);
+    })?;
+    let _ = take_last_panic();
+    Ok(())
+}
+
 pub enum Source<'a> {
     Seeded(u64),
     Replay(&'a [u32]),
